@@ -3,6 +3,7 @@ package scen
 import (
 	"encoding/json"
 	"fmt"
+	"syscall"
 	"time"
 
 	"simlal/sim"
@@ -57,6 +58,9 @@ func genC05Plan(r *sim.Rng, tier string) PayloadPlan {
 		switch r.Intn(15) {
 		case 12:
 			it = WireItem{Type: 9, Gen: "nal_types", N: r.Intn(9), Shape: r.Intn(64)}
+			if r.Bool(0.4) {
+				it = WireItem{Type: 9, Gen: "sps_golomb", N: r.Intn(42), Shape: r.Intn(240)}
+			}
 		case 13:
 			it = WireItem{Type: 9, Gen: "seqhdr_annexb", N: r.Intn(24), Shape: r.Intn(64)}
 		case 14:
@@ -91,6 +95,15 @@ func genC05Plan(r *sim.Rng, tier string) PayloadPlan {
 		pl.Joins = append(pl.Joins, PayloadJoin{After: r.Intn(n + 1), Proto: []string{"rtmp", "flv", "wsflv", "ts", "wsts", "rtsp", "rtsp", "rtspudp"}[r.Intn(8)]})
 	}
 	return pl
+}
+
+// cpuSeconds is the CPU time (user + system) this process has used so far.
+func cpuSeconds() float64 {
+	var ru syscall.Rusage
+	if err := syscall.Getrusage(syscall.RUSAGE_SELF, &ru); err != nil {
+		return 0
+	}
+	return float64(ru.Utime.Sec+ru.Stime.Sec) + float64(ru.Utime.Usec+ru.Stime.Usec)/1e6
 }
 
 func execHostilePayload(k *sim.Kernel, pl PayloadPlan) {
@@ -134,15 +147,25 @@ func execHostilePayload(k *sim.Kernel, pl PayloadPlan) {
 				}
 			}
 		}
+		cpu0 := cpuSeconds()
+		size := 0
 		if i < len(pl.Items) {
 			it := pl.Items[i]
-			hp.Publish(rtmpc.Msg{Type: uint8(it.Type), Ts: it.Ts, Payload: genPayload(it)})
+			pay := genPayload(it)
+			size = len(pay)
+			hp.Publish(rtmpc.Msg{Type: uint8(it.Type), Ts: it.Ts, Payload: pay})
 		}
 		if sent < len(by.Units) {
 			by.Actor.Publish(by.Units[sent].Msg)
 			sent++
 		}
 		k.Settle()
+		// processing time is bounded by the size of what was sent: measured in CPU time of this process (machine load
+		// does not count), with a bound far above what such a message normally costs (the harness itself hashes and re-segments every byte, so the
+		// allowance grows with the size: 4 s + 1 s per 32 KiB)
+		if d := cpuSeconds() - cpu0; i < len(pl.Items) && d > 4+float64(size)/(32<<10) {
+			k.Violate("C05.slow-message", "item %d (%s, %d bytes) kept the server busy for %.1f s of CPU time", i, pl.Items[i].Gen, size, d)
+		}
 		if i%4 == 3 {
 			k.Advance(250 * time.Millisecond)
 		}
